@@ -119,10 +119,29 @@ def h2(ctx):
                 ctx.violate(key, p, '%s does not test recv_blocking' % name)
                 continue
             pops = [e for e in evs if e.name in ('WL.pop_front', 'WL.pop_back')]
+            wle = [e for e in evs if e.name == 'WL.is_empty']
+            if wle and has(lb, 'other_is_empty', 'T') and not has(lb, 'other_is_empty', 'F') and not pops:
+                # `if self.wait_list.is_empty() { flip; None } else { self.wait_list.pop_front() }`: emptiness asked first
+                kinds.add('none')
+                if muts:
+                    ctx.violate(key, p, '%s mutates the wait list it found empty' % name)
+                if not (r[0] == 'agg' and r[2] == 'None'):
+                    ctx.violate(key, p, '%s returns something although the list is empty' % name)
+                if len(wrs) != 1 or wrs[0].data['field'] != 'recv_blocking' or not is_const(wrs[0].data['val'], flip):
+                    ctx.violate(key, p, '%s must set recv_blocking=%s when it finds the list empty' % (name, 'true' if flip == '1' else 'false'))
+                continue
             if len(pops) != 1 or len(muts) != 1:
                 ctx.violate(key, p, '%s must remove exactly once from the wait list (mutators: %s)' % (name, [m.name for m in muts]))
                 continue
             popv = pops[0].data['res']
+            if wle and has(lb, 'other_is_empty', 'F') and not has(lb, 'other_is_empty', 'T') and wle[0].idx < pops[0].idx:
+                kinds.add('some')
+                pay0 = ('field', ('downcast', popv, 'Some'), '0')
+                if not (r == popv or (r[0] == 'agg' and r[2] == 'Some' and r[3][0] == pay0)):
+                    ctx.violate(key, p, '%s does not return the removed entry' % name)
+                if wrs:
+                    ctx.violate(key, p, '%s flips the kind flag although the list was not empty' % name)
+                continue
             pay = ('field', ('downcast', popv, 'Some'), '0')
             # was the list found empty?  `match pop {Some/None}` or `pop.is_none()` / `is_some()` on the popped value
             empty = None
